@@ -5,9 +5,13 @@
 
     * every Get SEL Entry / Delete SEL Entry consumes one letter of `script` (a finite prefix, then
       one letter for ever - `Model.Retry.Script`): a letter with completion code 0 ("completed",
-      "in progress") is served - a Get returns exactly the requested bytes of the one record the
-      device holds (`FFh` = all from the offset on), a Delete is acknowledged -, any other letter is
-      answered with its bare completion code;
+      "in progress") is served, any other letter is answered with its bare completion code;
+    * "completed" says nothing about HOW MUCH data the answer carries: in step with `script` runs
+      `caps` (`Caps`: a finite prefix, then one value for ever) - a served Get SEL Entry returns the
+      requested bytes of the one record the device holds (`FFh` = all from the offset on), cut to at
+      most `k` bytes where the cap is `some k`: completed with k' bytes, 0 ≤ k' ≤ requested.
+      `some 0` is the answer `00 next-lo next-hi` without a single record byte; `none` the full
+      answer.  A served Delete is acknowledged (the cap of its letter plays no role);
     * the Reserve SEL requests have their own outcome list `rplan` (first Reserve, renewals …): a
       letter with code 0 (or an exhausted list) grants the next consecutive reservation id, any
       other letter is answered with its code.  (Two lists because an "every request is answered
@@ -23,8 +27,36 @@ open PyIpmi
 open PyIpmi.Model.Retry (Script Letter)
 open PyIpmi.FruXfer (Wire Xchg Send World Res xchg castErr)
 
+/-- How many record bytes the successive served answers carry at most (`none`: all asked for), in
+step with the outcome script: a finite prefix, then one value for ever. -/
+structure Caps where
+  pre : List (Option Nat)
+  tail : Option Nat
+  deriving Repr, DecidableEq, Inhabited
+
+def Caps.next (c : Caps) : Option Nat × Caps :=
+  match c.pre with
+  | [] => (c.tail, c)
+  | x :: rest => (x, { c with pre := rest })
+
+/-- every completed answer carries all the bytes asked for -/
+def Caps.full : Caps := ⟨[], none⟩
+
+/-- every completed answer carries no record byte at all -/
+def Caps.zero : Caps := ⟨[], some 0⟩
+
+/-- no completed answer is empty: every cap leaves at least one byte -/
+def Caps.Positive (c : Caps) : Prop := (∀ k, some k ∈ c.pre → 1 ≤ k) ∧ (∀ k, c.tail = some k → 1 ≤ k)
+
+/-- the bytes a served answer carries under a cap -/
+def cut (cap : Option Nat) (data : List Nat) : List Nat :=
+  match cap with
+  | none => data
+  | some k => data.take k
+
 structure ScriptSel where
   script : Script          -- outcomes of Get SEL Entry / Delete SEL Entry
+  caps : Caps              -- … and how many bytes a served Get carries at most
   rplan : List Letter      -- outcomes of the Reserve SEL requests, in order; then always granted
   lastRes : Nat            -- reservation ids are granted consecutively: lastRes + 1, …
   entry : List Nat         -- the record served (16 bytes)
@@ -35,27 +67,29 @@ def ScriptSel.grant (d : ScriptSel) (rplan : List Letter) : ScriptSel × List Na
   let id := d.lastRes + 1
   ({ d with lastRes := id, rplan := rplan }, [0, id % 256, id / 256 % 256])
 
+/-- one letter (and its cap) consumed -/
+def ScriptSel.advance (d : ScriptSel) : ScriptSel :=
+  { d with script := d.script.next.2, caps := d.caps.next.2 }
+
 def scriptSend : Send ScriptSel := fun d cmd p =>
   if cmd = 0x42 then
     match d.rplan with
     | [] => d.grant []
     | l :: rest => if l.code = 0 then d.grant rest else ({ d with rplan := rest }, [l.code])
   else if cmd = 0x43 then
-    let d' := { d with script := d.script.next.2 }
-    if d.script.next.1.code ≠ 0 then (d', [d.script.next.1.code])
+    if d.script.next.1.code ≠ 0 then (d.advance, [d.script.next.1.code])
     else
       match p with
       | [_, _, _, _, off, len] =>
-        (d', 0 :: d.next % 256 :: d.next / 256 % 256 ::
-          (if len = 0xFF then d.entry.drop off else (d.entry.drop off).take len))
-      | _ => (d', [0xC7])
+        (d.advance, 0 :: d.next % 256 :: d.next / 256 % 256 ::
+          cut d.caps.next.1 (if len = 0xFF then d.entry.drop off else (d.entry.drop off).take len))
+      | _ => (d.advance, [0xC7])
   else if cmd = 0x46 then
-    let d' := { d with script := d.script.next.2 }
-    if d.script.next.1.code ≠ 0 then (d', [d.script.next.1.code])
+    if d.script.next.1.code ≠ 0 then (d.advance, [d.script.next.1.code])
     else
       match p with
-      | [_, _, ilo, ihi] => (d', [0, ilo, ihi])
-      | _ => (d', [0xC7])
+      | [_, _, ilo, ihi] => (d.advance, [0, ilo, ihi])
+      | _ => (d.advance, [0xC7])
   else (d, [0xC1])
 
 /-- get_sel_entry(record_id, reservation) on an outcome script. -/
